@@ -295,3 +295,73 @@ class Sched:
             t.join(2.0)
         _state["sched"] = None
         return ok and not self.abort
+
+
+def codes_of(*classes_or_functions):
+    """code objects (nested ones included) of the methods of the given classes / of the given functions"""
+    out = []
+
+    def walk(code):
+        if code in out:
+            return
+        out.append(code)
+        for c in code.co_consts:
+            if hasattr(c, "co_code"):
+                walk(c)
+    for obj in classes_or_functions:
+        members = vars(obj).values() if isinstance(obj, type) else [obj]
+        for f in members:
+            if isinstance(f, property):
+                for acc in (f.fget, f.fset, f.fdel):
+                    if acc is not None and hasattr(acc, "__code__"):
+                        walk(acc.__code__)
+                continue
+            f = getattr(f, "__func__", f)
+            f = getattr(f, "__wrapped__", f)
+            if callable(f) and hasattr(f, "__code__"):
+                walk(f.__code__)
+    return out
+
+
+def explore_threads(make, nthreads=2, P=2, budget=1000, on_run=None):
+    """Iterative context bounding by prefix replay for small programs.  make(sched) -> (programs, judge); judge(ok, sched)
+    -> None or (key, message).  Returns (executed, exhaustive, first_bad) where first_bad = (key, message, forced)."""
+    stack = [({}, 0)]
+    executed = 0
+    while stack:
+        if executed >= budget:
+            return executed, False, None
+        forced, used = stack.pop()
+        sch = Sched(nthreads, forced)
+        programs, judge = make(sch)
+        ok = sch.run(programs)
+        executed += 1
+        if on_run is not None:
+            on_run(sch)
+        bad = None
+        if not ok or sch.deadlock or sch.errors:
+            bad = ("did-not-complete", "deadlock %r errors %r overflow %r" % (sch.deadlock, sch.errors, sch.overflow))
+        else:
+            bad = judge(ok, sch)
+        if bad:
+            return executed, False, (bad[0], bad[1], forced)
+        last = max([k for k in forced if isinstance(k, int)], default=-1)
+        for (i, me, run, kind) in sch.trace:
+            if i == "start":
+                if not forced:
+                    stack.extend(({"start": t}, used) for t in run[1:])
+                continue
+            if i <= last:
+                continue
+            if kind in ("block", "finish"):
+                for t in run[1:]:
+                    f = dict(forced)
+                    f[i] = t
+                    stack.append((f, used))
+            elif used < P:
+                for t in run:
+                    if t != me:
+                        f = dict(forced)
+                        f[i] = t
+                        stack.append((f, used + 1))
+    return executed, True, None
